@@ -100,19 +100,31 @@ func bigProg(n int, tag byte) []byte {
 	return append(p, 0x75, 0x51)
 }
 
+// worldSkip: the world of this check is made of factory blocks and hand-built transactions; when the repository's
+// codec, transaction validation or block acceptance refuses them (C04 / C01 / C13's subjects) no proposer is ever
+// asked for a block: the run ends capped, without a verdict. A worker is never started in that case.
+func worldSkip(format string, a ...interface{}) {
+	if par.IsWorker() {
+		ev.Fatal("world: "+format, a...)
+	}
+	run := ev.Start("C38", "model_checking")
+	run.Capped("world: could not be set up: " + fmt.Sprintf(format, a...))
+	run.Finish()
+}
+
 // wire returns the transaction as a node receives it (decoded from its serialisation: the decoder sets
 // SerializedSize, which the storage gas is charged on, to the binary length).
 func wire(tx *types.Tx) *types.Tx {
 	raw, err := tx.MarshalText()
 	if err != nil {
-		ev.Fatal("world: %v", err)
+		worldSkip("%v", err)
 	}
 	out := &types.Tx{}
 	if err := out.UnmarshalText(raw); err != nil {
-		ev.Fatal("world: %v", err)
+		worldSkip("%v", err)
 	}
 	if out.ID != tx.ID {
-		ev.Fatal("world: transaction id changes in the round trip")
+		worldSkip("transaction id changes in the round trip")
 	}
 	return out
 }
@@ -120,7 +132,7 @@ func wire(tx *types.Tx) *types.Tx {
 func measure(tx *types.Tx, height uint64) int64 {
 	gs, err := validation.ValidateTx(tx.Tx, &bc.Block{BlockHeader: &bc.BlockHeader{Height: height}}, nil)
 	if err != nil {
-		ev.Fatal("world: transaction does not validate: %v", err)
+		worldSkip("transaction does not validate: %v", err)
 	}
 	return gs.GasUsed
 }
@@ -145,7 +157,7 @@ func heavy(in labnet.Out, target int64, tag byte, childOut bool) *types.Tx {
 			break
 		}
 	}
-	ev.Fatal("world: cannot build a transaction of exactly %d gas", target)
+	worldSkip("cannot build a transaction of exactly %d gas", target)
 	return nil
 }
 
@@ -269,17 +281,17 @@ func world() {
 		db := crashkv.New()
 		nd, err := labnet.NewNode(db)
 		if err != nil {
-			ev.Fatal("world: node: %v", err)
+			worldSkip("node: %v", err)
 		}
 		for _, b := range st.Blocks {
 			cp := *b.Block
 			cp.SupLinks = nil
 			if orphan, err := nd.Chain.ProcessBlock(&cp); err != nil || orphan {
-				ev.Fatal("world: %s: block %d rejected: orphan=%v err=%v", v.name, b.Height, orphan, err)
+				worldSkip("%s: block %d rejected: orphan=%v err=%v", v.name, b.Height, orphan, err)
 			}
 		}
 		if *nd.Chain.BestBlockHash() != st.Tip.Hash() {
-			ev.Fatal("world: %s: tip is not best", v.name)
+			worldSkip("%s: tip is not best", v.name)
 		}
 		st.Base = db.Clone()
 		nd.Stop()
